@@ -173,6 +173,10 @@ def family_pil(rng):
         for j, (a, b) in enumerate(pairs):
             ps = [a, b] if rng.random() < 0.5 else [b, a]
             pil.append(["".join(rng.choice(aas) for _ in range(7)) + "K", gens.fr(rng.choice([0.001, 0.004, 0.02])), ps])
+            if rng.random() < 0.35:
+                # a second peptide of the same pair that lists the two proteins the other way round (file protein columns are not
+                # ordered): the pair is ONE shared-peptide node whatever the order of the names
+                pil.append(["".join(rng.choice(aas) for _ in range(7)) + "K", gens.fr(rng.choice([0.001, 0.004, 0.02])), ps[::-1]])
         if len(iso) >= 3 and rng.random() < 0.5:
             # indistinguishable isoforms: the same two or three peptides for all of them (ties on the peptide count among the
             # superset candidates; their order must not depend on set iteration)
